@@ -91,6 +91,18 @@ Definition run_raises (out : outcome) (fails : bool) : option xkind :=
       end
   end.
 
+(** What [_sudo] hands on as [watchers=]: a copy of the given list (None / absent:
+    of [config.run.watchers]) plus its own responder (here by the tag "<sudo>"). *)
+Definition sudo_tag : string := "<sudo>".
+Definition sudo_run_kwargs (c : config) (k : kwargs) : kwargs :=
+  let given := match kw k Watchers with
+               | Some (OList l) => l
+               | Some ONone | None => match cfg_run c Watchers with OList l => l | _ => [] end
+               | Some _ => []
+               end in
+  mkKw (fun o => match o with Watchers => Some (OList (given ++ [sudo_tag])) | _ => kw k o end)
+       (kw_timeout k) (kw_extra k).
+
 (** [Context._run]: prefix, then [runner.run(command, **kwargs)] *)
 Definition do_run (cc : ctxcfg) (st : cstate) (cmd : string) (k : kwargs) : outcome :=
   run_model (cc_run cc) (cc_parent cc) (prefix_commands st cmd) k.
@@ -107,7 +119,8 @@ Definition do_sudo (cc : ctxcfg) (st : cstate) (cmd : string) (user_kw : option 
              | Some e => e
              end in
   run_model (cc_run cc) (cc_parent cc)
-            (sudo_command (cc_prompt cc) user env (prefix_commands st cmd)) k.
+            (sudo_command (cc_prompt cc) user env (prefix_commands st cmd))
+            (sudo_run_kwargs (cc_run cc) k).
 
 (** [exec_with cl]: (state afterwards, what [start] received call by call, the
     exception propagating).  [cl] says how each kind of block guards its clean-up. *)
@@ -115,9 +128,9 @@ Fixpoint exec_with (cl : block -> clause) (cc : ctxcfg) (s : stmt) (st : cstate)
   : cstate * list call * option xkind :=
   match s with
   | SRun cmd k fails =>
-      let out := do_run cc st cmd k in (st, [o_started out], run_raises out fails)
+      let out := do_run cc st cmd k in (st, [out], run_raises out fails)
   | SSudo cmd u k fails =>
-      let out := do_sudo cc st cmd u k in (st, [o_started out], run_raises out fails)
+      let out := do_sudo cc st cmd u k in (st, [out], run_raises out fails)
   | SRaise x => (st, [], Some x)
   | SBlock b body =>
       let '(st2, out, r) :=
